@@ -40,7 +40,8 @@ RULE = (
 )
 ASSUMPTIONS = [
     "the stand-alone result is taken in the same fresh chunk process before any looping test ran (two equal runs required)",
-    "a result with timeout=True and no coverage after a looping test is a lost result; it is reported only when it reproduces in "
+    "a result with timeout=True and no coverage after a looping test, delivered before the test's own budget elapsed (thread ended "
+    "early without a result), is a lost result; it is reported only when it reproduces in "
     "2 of 3 repetitions and a trivial execution takes < 0.5 s (otherwise the test may have run into its own timeout)",
     "the block of an abandoned thread is computed from the loop's sleep period (sleep in progress at the timeout) plus the injected delay",
     "an overrun that does not reproduce twice, or that happens while a trivial execution takes > 0.5 s, is load noise",
@@ -198,7 +199,7 @@ def floors(tier):
 
 def plan(tier, seed):
     out = [{"name": "directed", "variant": v} for v in range(len(DIRECTED))]
-    parts = 8 if tier == "quick" else 16
+    parts = 7 if tier == "quick" else 16
     n = 4 if tier == "quick" else 30
     for p in range(parts):
         out.append({"name": "random", "seed": seed, "part": p, "n": n})
@@ -331,8 +332,17 @@ def _scan(ctx, schedule, delay, cfg, base, records, descr, count=True):
             ckind, cblk = max(loops_before, key=lambda kb: kb[1])
             timing = LONG if cblk > cfg[0] else SHORT
         if summ["timeout"] and set(summ["lines"]) <= set(b["import_lines"]):
+            allowed = min(cfg[0], cfg[1] * len(entry["lines"]))
+            if dt >= 0.9 * allowed:
+                # execute() waited for the whole budget: the test ran into its *own* timeout (starved on a loaded machine);
+                # a lost result is a thread that ended early without a result
+                if count:
+                    ctx.anomaly("terminating-test-ran-into-its-own-timeout")
+                continue
             if loops_before:
                 lost[idx] = (ckind, timing)
+                if count:
+                    ctx.ok(cls=[f"timing:{timing}", "later:lost-candidate"])
             elif count:
                 ctx.anomaly("terminating-test-timed-out-without-loop-before")
             continue
@@ -442,8 +452,8 @@ DIRECTED = [
     (["sleep-long", "t_slow", "t_small", "t_classify", "t_slow", "swallow", "t_small", "t_raise", "finally-raise", "t_classify"], 0.0, 0),
     (["c-call", "t_slow", "t_small", "busy", "t_slow", "t_classify", "nested", "t_slow", "t_raise", "sleep-short", "t_slow", "t_small"], 0.6, 0),
     # abandoned thread blocked LONGER than the second join: sleep in progress ends 0.6 s after execute() returned, while t_long runs
-    ([("sleep-long", 2.3), "t_long", "t_small", ("sleep-long", 2.3), "t_long", "t_classify", ("sleep-long", 2.3), "t_long", "t_raise"], 0.0, 0),
-    (["busy", "t_long", "t_small", "c-call", "t_long", "t_raise", "nested", "t_long", "t_classify", "finally-raise", "t_long"], 1.3, 0),
+    ([("sleep-long", 2.3), "t_long", "t_small", "t_classify", ("sleep-long", 2.3), "t_long", "t_raise", "t_small"], 0.0, 0),
+    (["busy", "t_long", "t_small", "t_raise", "c-call", "t_long", "t_classify", "t_small"], 1.3, 0),
     # blocked SHORTER than the second join, asleep at the moment of the timeout, >= 8 statements, budget at the maximum, max != per
     ([("sleep-short", 0.3), "t_slow", ("sleep-short", 0.45), "t_slow", "t_small", ("sleep-short", 0.6), "t_slow", ("sleep-short", 0.35), "t_long",
       ("sleep-short", 0.55), "t_slow", "t_raise"], 0.0, 1),
